@@ -271,10 +271,14 @@ def alazy_constant(ttl=0):
                 (ttl != 0) and (wrapper.alazy_constant_refresh_time < utime() - ttl)
             ):
                 dirty_count = wrapper.alazy_constant_dirty_count
-                wrapper.alazy_constant_cached_value = yield fn.asynq()
-                # a dirty() issued while the value was being computed must not be lost
-                if dirty_count == wrapper.alazy_constant_dirty_count:
-                    wrapper.alazy_constant_refresh_time = utime()
+                value = yield fn.asynq()
+                # a dirty() issued while the value was being computed must not be lost: such a
+                # value is handed to this caller, but it is not kept (it may predate the change
+                # that dirty() announced, and must not replace a value computed after it)
+                if dirty_count != wrapper.alazy_constant_dirty_count:
+                    return value
+                wrapper.alazy_constant_cached_value = value
+                wrapper.alazy_constant_refresh_time = utime()
             return wrapper.alazy_constant_cached_value
 
         def dirty():
